@@ -13,6 +13,7 @@ import (
 	"context"
 	"errors"
 	"fmt"
+	"reflect"
 	"runtime"
 	"sort"
 	"strings"
@@ -40,7 +41,8 @@ type c07It struct {
 	Sig  string `json:"sig,omitempty"`  // gate closed after the act returned
 	Y    int    `json:"y,omitempty"`    // yields before working
 	// ErrKind: which error value cancel / the Finish function supplies: "" (a harness error) | ctx-canceled |
-	// deadline | cancelnil-sentinel | noout | wrapped-canceled | wrapped-deadline | wrapped-noout
+	// deadline | cancelnil-sentinel | noout | wrapped-canceled | wrapped-deadline | wrapped-noout |
+	// typed-nil | struct-value | non-comparable
 	ErrKind string `json:"err_kind,omitempty"`
 }
 
@@ -258,7 +260,35 @@ type c07Out struct{ idx, k int }
 type c07Panic struct{ who string }
 type c07Err struct{ who string }
 
-func (e *c07Err) Error() string { return "c07 cancel by " + e.who }
+func (e *c07Err) Error() string {
+	if e == nil {
+		return "c07 typed-nil error"
+	}
+	return "c07 cancel by " + e.who
+}
+
+// c07ValErr is a comparable struct-valued error, c07SliceErr a non-comparable one (== on two of them panics).
+type c07ValErr struct{ who string }
+
+func (e c07ValErr) Error() string { return "c07 struct error by " + e.who }
+
+type c07SliceErr struct {
+	who  string
+	tags []string
+}
+
+func (e c07SliceErr) Error() string { return "c07 non-comparable error by " + e.who }
+
+// c07SameErr: is the returned error exactly the supplied value? (== where defined, deep equality for
+// non-comparable dynamic types)
+func c07SameErr(a, b error) (same bool) {
+	defer func() {
+		if recover() != nil {
+			same = reflect.DeepEqual(a, b)
+		}
+	}()
+	return a == b
+}
 
 type c07CancelEv struct {
 	key        string
@@ -478,6 +508,12 @@ func c07MkErr(who, kind string) error {
 		return fmt.Errorf("c07 %s: %w", who, context.DeadlineExceeded)
 	case "wrapped-noout":
 		return fmt.Errorf("c07 %s: %w", who, mr.ErrReduceNoOutput)
+	case "typed-nil":
+		return (*c07Err)(nil) // a non-nil error interface holding a nil pointer
+	case "struct-value":
+		return c07ValErr{who: who}
+	case "non-comparable":
+		return c07SliceErr{who: who, tags: []string{"c07", who}}
 	}
 	return &c07Err{who: who}
 }
@@ -856,7 +892,7 @@ func (x *c07Run) key(o c07Outcome) string {
 		// the error must be exactly the value a callback supplied (identity)
 		x.mu.Lock()
 		for _, c := range x.cancels {
-			if c.err != nil && o.err == c.err {
+			if c.err != nil && c07SameErr(o.err, c.err) {
 				x.mu.Unlock()
 				return c.key
 			}
@@ -870,7 +906,7 @@ func (x *c07Run) key(o c07Outcome) string {
 			return "cancelnil"
 		case o.err == context.DeadlineExceeded:
 			return "deadline"
-		case errors.As(o.err, &ce):
+		case errors.As(o.err, &ce) && ce != nil:
 			return "err:" + ce.who
 		}
 		return "err:foreign"
